@@ -806,6 +806,32 @@ pub fn gen_parse(rng: &mut Rng, sw: &Swarm, now: &Reading) -> OpKind {
             t.txt.clear();
         }
     }
+    // Forms whose acceptance C18 does not speak about, used only where the text supplies the full
+    // date (so that "the outcome does not depend on the clock" can be demanded of them):
+    let complete = crate::model::is_complete_date(&toks) || ty == Ty::Time;
+    if complete && !truncate && rng.chance(1, 12) {
+        // a month number under a name element, as other systems' texts have it
+        if let Some(i) = toks.iter().position(|t| matches!(t.sem, Sem::MonthName { .. })) {
+            // never next to other digits (how digits that run together split is the parser's business)
+            let before = toks[..i].iter().rev().find(|t| !t.txt.is_empty()).and_then(|t| t.txt.bytes().last());
+            let after = toks[i + 1..].iter().find(|t| !t.txt.is_empty()).and_then(|t| t.txt.bytes().next());
+            let digit = |b: Option<u8>| b.map(|b| b.is_ascii_digit()).unwrap_or(false);
+            if !digit(before) && !digit(after) {
+                if let Sem::MonthName { n } = toks[i].sem {
+                    toks[i].txt = format!("{:02}", n);
+                    toks[i].sem = Sem::MonthNameGivenNumber { n };
+                }
+            }
+        }
+    }
+    if complete && !truncate && toks.last().map(|t| !t.txt.is_empty()).unwrap_or(false) && rng.chance(1, 12) {
+        // text after the last picture element: zone designators as other systems write them
+        let txt = *rng.pick(&["Z", "z", "+05:45", "+0545", "-03", "-03:30", "+00:00", " UTC", " GMT", "Z ", "+14", " +01:00"]);
+        let last = toks.iter().rev().find(|t| !t.txt.is_empty()).and_then(|t| t.txt.bytes().last());
+        let glued = last.map(|b| b.is_ascii_alphabetic()).unwrap_or(false) && txt.as_bytes()[0].is_ascii_alphabetic();
+        let txt = if glued { format!(" {}", txt) } else { txt.to_string() };
+        toks.push(Tok { pic: String::new(), txt, sem: Sem::Trailing });
+    }
     OpKind::Parse { ty, toks }
 }
 
@@ -824,8 +850,13 @@ pub fn gen_op(rng: &mut Rng, sw: &Swarm, now: &Reading, st: &mut GenState) -> Op
         op.ticks = ticks(rng, sw);
         // sometimes the same Formatter object serves another target type
         if rng.chance(1, 4) {
-            if let OpKind::Parse { ty, .. } = &mut op.kind {
-                *ty = *rng.pick(&[Ty::Date, Ty::Timestamp, Ty::Oracle, Ty::Time]);
+            if let OpKind::Parse { ty, toks } = &mut op.kind {
+                let new_ty = *rng.pick(&[Ty::Date, Ty::Timestamp, Ty::Oracle, Ty::Time]);
+                // forms that are only generated for complete texts keep the type they were complete for
+                let special = toks.iter().any(|t| matches!(t.sem, Sem::Trailing | Sem::MonthNameGivenNumber { .. }));
+                if !special {
+                    *ty = new_ty;
+                }
             }
         }
         return op;
